@@ -137,6 +137,11 @@ def run_case(c):
     nontrivial = False
 
     first_bad = [None]
+    import re as _re
+    deps = {}
+    for line in body.splitlines():
+        if ":=" in line and "::=" in line:
+            deps[line.split("::=")[0].strip()] = set(_re.findall(r"<[a-z_0-9]+>", line.split(":=", 1)[1].split("::=")[-1] if False else line.rsplit(":=", 1)[1]))
 
     def judge(t, where, nonin, where_op=None):
         nonlocal nontrivial
@@ -146,10 +151,19 @@ def run_case(c):
         for n in t.flatten():
             if not n.symbol.is_non_terminal or n.symbol not in f.grammar.generators:
                 continue
+            # generator-defined here? decided from the spec text, not by asking fandango: a generator is switched off only
+            # below one of its own argument symbols (the production of the argument itself)
+            anc = set()
+            p_ = n._parent
+            while p_ is not None:
+                anc.add(p_.symbol.name())
+                p_ = p_._parent
+            use = not (anc & deps.get(n.symbol.name(), set()))
             try:
-                use = f.grammar.is_use_generator(n)
+                if bool(f.grammar.is_use_generator(n)) != use:
+                    stats["is_use_generator_disagrees_with_spec_text"] += 1
             except Exception:
-                use = False
+                pass
             if not use:
                 stats["generator_symbol_nodes_not_generated_here"] += 1
                 continue
